@@ -10,6 +10,8 @@ const c17Harness = `package proxy
 import (
 	"encoding/json"
 	"fmt"
+	"io"
+	"log/slog"
 	"os"
 	"strings"
 	"testing"
@@ -206,7 +208,65 @@ func TestVerifReplayC17(t *testing.T) {
 			}
 		}
 	}
-	fmt.Printf("REPLAY-NOT-REPRODUCED bounded search over documents of length <= 3 (single edits) and %d two-edit histories found no failing input\n", hist)
+	// notifications: DocumentContents.Apply gets the list of changes of one didChange notification (ranged and full
+	// replacements mixed) and must apply all of them, in order
+	notes := 0
+	{
+		full := func(t string) lsp.TextDocumentContentChangeEvent { return lsp.TextDocumentContentChangeEvent{Text: t} }
+		ranged := func(sl, sc, el, ec uint32, t string) lsp.TextDocumentContentChangeEvent {
+			return lsp.TextDocumentContentChangeEvent{Range: &lsp.Range{Start: lsp.Position{Line: sl, Character: sc}, End: lsp.Position{Line: el, Character: ec}}, Text: t}
+		}
+		pool := []lsp.TextDocumentContentChangeEvent{full("hello\nworld"), full(""), full("x"), ranged(0, 0, 0, 0, "A"), ranged(0, 1, 0, 1, "!"), ranged(1, 0, 1, 0, "B"), ranged(0, 0, 1, 0, ""), ranged(0, 0, 0, 1, "\n")}
+		for _, start := range []string{"a\nb", "", "one line"} {
+			for i := range pool {
+				for j := range pool {
+					for k := -1; k < len(pool); k++ {
+						changes := []lsp.TextDocumentContentChangeEvent{pool[i], pool[j]}
+						if k >= 0 {
+							changes = append(changes, pool[k])
+						}
+						notes++
+						want := start
+						okAll := true
+						for _, c := range changes {
+							lines := strings.Split(want, "\n")
+							if c.Range == nil {
+								want = c.Text
+								continue
+							}
+							w, ok := verifOracle(lines, false, c.Range.Start.Line, c.Range.Start.Character, c.Range.End.Line, c.Range.End.Character, c.Text)
+							if !ok {
+								okAll = false
+								break
+							}
+							want = w
+						}
+						if !okAll {
+							continue
+						}
+						dc := newDocumentContents(slog.New(slog.NewTextHandler(io.Discard, nil)))
+						dc.Set("file:///t.templ", NewDocument(slog.New(slog.NewTextHandler(io.Discard, nil)), start))
+						var got string
+						p := func() (p interface{}) {
+							defer func() { p = recover() }()
+							d, err := dc.Apply("file:///t.templ", changes)
+							if err != nil {
+								return err
+							}
+							got = d.String()
+							return nil
+						}()
+						if p != nil || got != want {
+							js, _ := json.Marshal(changes)
+							fmt.Printf("REPLAY-CONFIRMED notification: document %q, one didChange with the changes %s: server copy %q (panic/err=%v), editor %q\n", start, js, got, p, want)
+							return
+						}
+					}
+				}
+			}
+		}
+	}
+	fmt.Printf("REPLAY-NOT-REPRODUCED bounded search over documents of length <= 3 (single edits), %d two-edit histories and %d notifications of 2-3 mixed changes found no failing input\n", hist, notes)
 }
 `
 
